@@ -81,6 +81,12 @@ CLAIMED = {
         note='Narrow and enumeration-driven: the decoder tables are dictionaries keyed by byte value, so the solver only enumerates the byte combinations (stated in the evidence). Outside: termination in general, text heuristics on long data, '
              '-C/-r sub-block directives vs sna2skool, large images, other code-map formats.',
         design='4 (C14)', technique='solver-driven enumeration of short windows through the real generators (bytes realised via z3 models); tiling assertions per path'),
+    'C18': dict(
+        text='skool2asm only: the real SkoolParser + AsmWriter convert a corpus of 3 skool entries (long unbreakable words, multi-instruction comment groups, registers, paragraphs, end comments, operations wider than the instruction field) with a symbolic '
+             'line width 40..200 (and comment-width-min 1..40; instruction-width 5..40 enumerated). Each path stands for all widths that wrap identically: the emitted words equal the source words in order, every instruction appears once, and z3 shows '
+             'for every output line len(line) <= line_width over the whole width set of the path, unless the line holds a single unbreakable item (word, or an instruction field leaving fewer than comment-width-min columns), with a warning for instruction lines.',
+        note='Narrow: the bound is the corpus; skool2html, the skool file written by sna2skool, tables/lists and tab/CRLF settings are outside.',
+        design='4 (C18)', technique=TECH + '; symbolic width parameters through the real text wrapper'),
 }
 NOT_APPLICABLE = {
     'C16': 'HTML link/anchor consistency is a property of generated document structure (which files and id= strings exist); there is no bounded arithmetic/data path to make symbolic - a solver encoding would be a copy of the writer (DESIGN.md section 5).',
